@@ -70,6 +70,7 @@ def pool():
         {'op': 'dump'},
         {'op': 'fullstack', 'bases': [w('mapper', {'stateful': S}, 'same')], 'n': 2},
         {'op': 'twice'},
+        dict(w('label', None, None, {'stateful': s}), relabel=True),
     ]
 
 
@@ -290,6 +291,15 @@ def run(ctx):
             for tree in exprgen.parenthesisations(ops):
                 if total_weight(tree) <= 60:
                     check_expr(ctx, json.loads(json.dumps(tree)))
+    if ctx.shard == 0:
+        # directed: a hand-written label operator leaving a non-trained worker on the train tail, followed by an operator that
+        # does not extend the train segment, followed by a consumer of the train path - in every parenthesisation
+        relabel, consumer = templates[-1], templates[0]
+        for middle in (templates[2], templates[5], templates[9], {'op': 'sniff'}):
+            ops = [instantiate(t, counter) for t in (templates[1], relabel, middle, consumer)]
+            for tree in exprgen.parenthesisations(ops):
+                ctx.count('directed_relabel_cases')
+                check_expr(ctx, json.loads(json.dumps(tree)))
     rng = ctx.rng('random', ctx.shard)
     for _ in range(ctx.pick(240, 9000) // ctx.nshards):
         gen = exprgen.Gen(rng)
